@@ -29,6 +29,7 @@ fn exec_line(line: &str) -> String {
         Some("poll") => poller::exec(&toks, line).unwrap_or_else(|| "bad-op".into()),
         Some("slx") => ra::exec_slx(&toks),
         Some("slaba") => ra::exec_slaba(),
+        Some("skip") => ra::exec_skip(&toks),
         Some("upd") => daemon::exec_upd(line),
         _ => header::exec(&toks, line).unwrap_or_else(|| "bad-op".into()),
     }
@@ -110,6 +111,7 @@ fn main() {
         }
         Some("hdr-abi") => { emit("cabi".to_string()); }
         Some("crashgrid") => { for g in crash::grid() { emit(g); } }
+        Some("skipgen") => { for g in ra::skip_grid(args.get(2).map(|s| s.as_str()) == Some("all")) { emit(g); } }
         Some("slabagen") => { emit("slaba".to_string()); }
         Some("slxgen") => {
             // one full exhaustion of the retry budget + short scripted runs (more with `all`)
